@@ -440,7 +440,7 @@ func afterColon(s string) string {
 // runC08RdnsRealTime: the same batch on the REAL clock. Goroutines of the code under test that wait for each other
 // on a mutex are not "durably blocked" for testing/synctest, so a serialised fan-out would stall a bubble instead of
 // showing up as virtual time; this case sees it as wall-clock time. The discrimination is coarse on purpose
-// (N stalled lookups: one 5 s timeout when concurrent, N x 5 s when serialised; the verdict threshold is 11 s).
+// (N stalled lookups: one 5 s timeout when concurrent, N x 5 s when serialised; the verdict threshold is 13 s).
 func runC08RdnsRealTime(c *fw.Ctx, id string) {
 	resetProcessState()
 	old := reversedns.LookupAddrFn
@@ -462,7 +462,7 @@ func runC08RdnsRealTime(c *fw.Ctx, id string) {
 	el := time.Since(t0)
 	c.Nontrivial("rdns-realtime")
 	c.Count("rdns_realtime_ms", int(el.Milliseconds()))
-	if el > 11*time.Second {
+	if el > 13*time.Second {
 		c.Violate("C08", "rdns-realtime-bound", fmt.Sprintf("%s: 4 stalled lookups took %v of real time; concurrent lookups share one 5 s timeout", id, el.Round(100*time.Millisecond)), nil)
 	}
 }
@@ -471,8 +471,8 @@ func runC08RdnsRealTime(c *fw.Ctx, id string) {
 // server object do) against providers that accept the request and never answer. A lookup's duration is bounded by its
 // own context and the per-provider timeouts, not by the other lookup's: a lock held across the provider walk cannot be
 // left by a caller whose context ended. Blocked mutexes do not let a bubble's clock advance, so this runs on the REAL
-// clock with a coarse threshold: the second caller's context ends after 200 ms, the verdict threshold is 1.5 s, the
-// first caller is released after 3 s.
+// clock with a coarse threshold: the second caller's context ends after 200 ms, the verdict threshold is 4 s, the
+// first caller's context lasts 10 s (it is cancelled as soon as the second caller is back).
 func runC08PublicIPOverlap(c *fw.Ctx, id string) {
 	resetProcessState()
 	rt := &stallRT{behave: map[string]string{}, release: make(chan struct{})}
@@ -480,12 +480,12 @@ func runC08PublicIPOverlap(c *fw.Ctx, id string) {
 		rt.behave[h] = "hang-before-headers"
 	}
 	f := publicip.VerifNewPublicIPFetcher(&http.Client{Transport: rt})
-	ctx1, cancel1 := context.WithTimeout(context.Background(), 3*time.Second)
+	ctx1, cancel1 := context.WithTimeout(context.Background(), 10*time.Second)
 	defer cancel1()
 	first := make(chan struct{})
 	go func() { defer close(first); f.GetIP(ctx1) }()
 	time.Sleep(50 * time.Millisecond)
-	// every further lookup runs in its own goroutine and is given up after 8 s: a lookup that never returns (a lock that
+	// every further lookup runs in its own goroutine and is given up after 14 s: a lookup that never returns (a lock that
 	// is never released) is a verdict, not a frozen check
 	timed := func(d time.Duration) (time.Duration, error, bool) {
 		ctx, cancel := context.WithTimeout(context.Background(), d)
@@ -499,8 +499,8 @@ func runC08PublicIPOverlap(c *fw.Ctx, id string) {
 		select {
 		case r := <-ch:
 			return r.el, r.err, false
-		case <-time.After(8 * time.Second):
-			return 8 * time.Second, nil, true
+		case <-time.After(14 * time.Second):
+			return 14 * time.Second, nil, true
 		}
 	}
 	el, err, hung := timed(200 * time.Millisecond)
@@ -514,18 +514,18 @@ func runC08PublicIPOverlap(c *fw.Ctx, id string) {
 	c.Nontrivial("publicip-overlap-realtime")
 	c.Count("publicip_overlap_ms", int(el.Milliseconds()))
 	if hung {
-		c.Violate("C08", "publicip-lookup-hangs", fmt.Sprintf("%s: a public-IP lookup whose context ended after 200 ms had not returned after 8 s while another lookup through the same fetcher was stalled", id), nil)
+		c.Violate("C08", "publicip-lookup-hangs", fmt.Sprintf("%s: a public-IP lookup whose context ended after 200 ms had not returned after 14 s while another lookup through the same fetcher was stalled", id), nil)
 		return
 	}
 	if err == nil {
 		c.Violate("C08", "publicip-overlap-no-error", fmt.Sprintf("%s: a lookup against providers that never answer succeeded", id), nil)
 	}
-	if el > 1500*time.Millisecond {
+	if el > 4*time.Second {
 		c.Violate("C08", "publicip-overlap-queued", fmt.Sprintf("%s: a public-IP lookup whose context ended after 200 ms returned after %v of real time while another lookup through the same fetcher was stalled", id, el.Round(10*time.Millisecond)), nil)
 	}
 	// and back to back: both lookups above FAILED; the next one through the same fetcher is bounded like the first
 	el3, _, hung3 := timed(200 * time.Millisecond)
-	if hung3 || el3 > 1500*time.Millisecond {
+	if hung3 || el3 > 4*time.Second {
 		c.Violate("C08", "publicip-lookup-after-failure", fmt.Sprintf("%s: after two failed lookups the next one through the same fetcher (context of 200 ms) took %v (gave up waiting: %v)", id, el3.Round(10*time.Millisecond), hung3), nil)
 	}
 }
